@@ -273,13 +273,13 @@ def check_merge_concurrent(res, ctx, rng, idx_types, n):
                     break
 
 
-def run_race(ctx, secs, goroutines, idx, io, seed, race=True):
+def run_race(ctx, secs, goroutines, idx, io, seed, race=True, mode=None):
     base = ctx.scratch.fresh()
     try:
         exe = core.XKV_RACE if race else core.XKV
         env = dict(os.environ, GORACE="halt_on_error=0 history_size=2", GOMEMLIMIT="4GiB")
         try:
-            r = subprocess.run([exe, "race", base, str(secs), str(goroutines), str(idx), str(io), str(seed)],
+            r = subprocess.run([exe, "race", base, str(secs), str(goroutines), str(idx), str(io), str(seed)] + ([mode] if mode else []),
                                capture_output=True, text=True, timeout=secs + 120, env=env)
             out, err, rc = r.stdout, r.stderr, r.returncode
         except subprocess.TimeoutExpired:
